@@ -121,3 +121,12 @@ plan("C17", [("valset", 6, 40), ("lifecycle", 4, 30)], tests=["TestC17Handshake"
           "repetition after success must fail; consumer-side deviations and a channel over a foreign client must be refused by the consumer; a second consumer naming the "
           "connection of a launched one; plus, after every provider block of every world, the four binding maps read from the raw store must be mutual inverses and every "
           "CCV channel must sit on its consumer's client; distinct = attempt kind, standing map sizes")
+
+plan("C07", [], tests=["TestC07Evidence"],
+     minobs={"evidence-submissions": 60, "invalid-evidence-cases": 50, "punishments": 10, "punishments-with-unbonding-or-redelegating-stake": 3},
+     rule="evidence objects are built from real headers of live consumer chains and the harness' keys (ground truth: signer set, validity); every message is a real "
+          "signed transaction alone in its block; valid => exactly the signers are slashed/jailed/tombstoned per the consumer's parameters in force, slash power argument "
+          "= last power + unmatured undelegations/redelegations recomputed from staking entries, jail-until and tombstone flag, all other validators identical "
+          "(destinations of the signer's redelegations may lose tokens); invalid (each mutation operator of the statement, wrong client, other consumer, shared chain id "
+          "with another key, amnesia shape, below trust level, replay after tombstone) => tx fails, empty tx-level diff of the provider store, all validators identical; "
+          "distinct = evidence kind x mutation / key relation")
